@@ -1598,10 +1598,14 @@ class DistTriangular(DistContinuous):
         """
         u: float = self._stream.next_float()
         if u <= (self._mode - self._lo) / (self._hi - self._lo):
-            return (self._lo + math.sqrt((self._mode - self._lo) 
+            x = (self._lo + math.sqrt((self._mode - self._lo) 
                 * (self._hi - self._lo) * u))
-        return self._hi - math.sqrt((self._hi - self._lo) 
+        else:
+            x = self._hi - math.sqrt((self._hi - self._lo) 
                 * (self._hi - self._mode) * (1.0 - u))
+        # rounding in the square root can push a draw next to a bound a few
+        # ulps outside of [lo, hi] (when mode == lo or mode == hi)
+        return min(max(x, self._lo), self._hi)
 
     def probability_density(self, x: float) -> float:
         """Returns the probability density value for value x."""
